@@ -228,6 +228,16 @@ impl Session {
                 self.xs().set_heap_limit(p(t[3])).unwrap();
                 String::from("ok")
             }
+            "stacklimit" => {
+                let p = |s: &str| if s == "-" { None } else { Some(s.parse::<usize>().unwrap()) };
+                self.xs().set_stack_limit(p(t[1])).unwrap();
+                String::from("ok")
+            }
+            "heaplimit" => {
+                let p = |s: &str| if s == "-" { None } else { Some(s.parse::<usize>().unwrap()) };
+                self.xs().set_heap_limit(p(t[1])).unwrap();
+                String::from("ok")
+            }
             "insnlimit" => {
                 let p = |s: &str| if s == "-" { None } else { Some(s.parse::<usize>().unwrap()) };
                 self.xs().set_insn_limit(p(t[1])).unwrap();
